@@ -3085,7 +3085,12 @@ static void PrintDebSymbols_PNode(PTree Tree, void* pData) {
     TDebContext* DebContext = (TDebContext*)pData;
     int          l1;
 
-    if (!((Node->SymWert.AddrSpaceMask >> DebContext->Space) & 1)) {
+    /* symbols that belong to no address space are listed under NOTHING */
+    if (DebContext->Space == SegNone) {
+        if (Node->SymWert.AddrSpaceMask != 0) {
+            return;
+        }
+    } else if (!((Node->SymWert.AddrSpaceMask >> DebContext->Space) & 1)) {
         return;
     }
 
